@@ -341,6 +341,32 @@ class Gen:
         nm = self.idfns[t]
         return ('call', nm, nm, [e])
 
+    def op_helper(self, op, w):
+        """a small INLINABLE function `fn h(a, b) { a op b }`: in release a constant argument reaches the
+        operator only after inlining (const-folding / asm constant propagation hazard)"""
+        key = '%s_h%s%d' % (self.p.name, op, w)
+        if not any(f['key'] == key for f in self.p.fns):
+            t = ('int', w)
+            bt = U64 if op in ('Shl', 'Shr') else t
+            ret = TBOOL if op in CMP else t
+            self.p.fns.append(dict(name=key, key=key, params=[('a', t), ('b', bt)], ret=ret,
+                                   body=[('return', ('bin', op, w, ('var', 'a'), ('var', 'b')))],
+                                   attr=self.rng.choice(['', '', '#[inline(always)]'])))
+        return key
+
+    def apply_form(self, form, op, w, ca, cb):
+        """ca / cb: (value, is_constant_side).  forms: 'direct' literal op hidden, 'helper' through the inlinable
+        helper, 'let' hidden value bound first"""
+        bt = U64 if op in ('Shl', 'Shr') else ('int', w)
+        def side(v, const, ty):
+            l = self.lit(ty[1], v, True)
+            return l if const else self.hide(l, ty)
+        a, b = side(ca[0], ca[1], ('int', w)), side(cb[0], cb[1], bt)
+        if form == 'helper':
+            h = self.op_helper(op, w)
+            return ('call', h, h, [a, b])
+        return ('bin', op, w, a, b)
+
     def g_int(self, w, sc, d):
         rng, M = self.rng, MAXW[w]
         r = rng.random()
@@ -365,6 +391,12 @@ class Gen:
                 if op == 'Shl': return ('bin', op, w, a, b), 0, M
                 return ('bin', op, w, a, b), 0, ahi >> min(blo, 300)
             b, blo, bhi = self.g_int(w, sc, d - 1)
+            if rng.random() < 0.10:
+                # zero / identity / absorbing element as a bare literal on one side
+                c = rng.choice([0, 0, 1, M])
+                if rng.random() < 0.5: a, alo, ahi = self.lit(w, c), c, c
+                else: b, blo, bhi = self.lit(w, c), c, c
+                self.stat('identity_const_operand')
             bad = self.noviol == 0 and rng.random() < self.viol
             if bad: self.stat('violation_injected')
             self.stat('op_' + op)
@@ -893,30 +925,88 @@ class Gen:
         self.p.main = main
         return self.p
 
+def reverts_op(op, w, x, y):
+    M = MAXW[w]
+    return (op == 'Add' and x + y > M) or (op == 'Sub' and x < y) or (op == 'Mul' and x * y > M) or (op in ('Div', 'Mod') and y == 0)
+
 def operator_sweep(rng, name, per=12):
-    """T-corr (i): every operator of ops.sw on boundary-biased operands hidden behind #[inline(never)]
-    identities; at most one reverting operation, placed last."""
+    """T-corr (i): every operator of ops.sw on boundary-biased operands; each operand is either hidden behind an
+    #[inline(never)] identity or a bare constant, the operator is applied directly or through a small inlinable
+    helper; at most one reverting operation, placed last."""
     g = Gen(rng, name, viol=0.0)
     main = []
     last = None
     for _ in range(per):
         w = rng.choice([8, 16, 32, 64, 256])
         M = MAXW[w]
-        pick = lambda: rng.choice([0, 1, 2, M, M - 1, M // 2, M // 2 + 1, 1 << (w // 2), rng.randint(0, M), rng.randint(0, 20)])
+        pick = lambda: rng.choice([0, 0, 1, 1, 2, M, M, M - 1, M // 2, M // 2 + 1, 1 << (w // 2), rng.randint(0, M), rng.randint(0, 20)])
         op = rng.choice(ARITH + CMP + ['Not'])
-        a = g.hide(g.lit(w, pick()), ('int', w))
         if op == 'Not':
-            main.append(('log', ('int', w), ('not', w, a))); continue
-        if op in ('Shl', 'Shr'):
-            b = g.hide(g.lit(64, rng.choice([0, 1, w - 1, w, w + 1, 63, 64, 65, 255, 256, 257, 2**64 - 1, rng.randint(0, 300)])), U64)
-        else:
-            b = g.hide(g.lit(w, pick()), ('int', w))
-        x, y = a[3][0][2], b[3][0][2]
-        reverts = (op == 'Add' and x + y > M) or (op == 'Sub' and x < y) or (op == 'Mul' and x * y > M) or (op in ('Div', 'Mod') and y == 0)
-        s = ('log', TBOOL if op in CMP else ('int', w), ('bin', op, w, a, b))
-        if reverts: last = s
+            main.append(('log', ('int', w), ('not', w, g.hide(g.lit(w, pick()), ('int', w))))); continue
+        x = pick()
+        y = rng.choice([0, 1, w - 1, w, w + 1, 63, 64, 65, 255, 256, 257, 2**64 - 1, rng.randint(0, 300)]) if op in ('Shl', 'Shr') else pick()
+        consts = rng.choice([(False, False), (False, False), (True, False), (False, True)])
+        e = g.apply_form(rng.choice(['direct', 'helper']), op, w, (x, consts[0]), (y, consts[1]))
+        s = ('log', TBOOL if op in CMP else ('int', w), e)
+        if reverts_op(op, w, x, y): last = s
         else: main.append(s)
     if last and rng.random() < 0.5: main.append(last)
     g.p.main = main
     g.stats['sweep_ops'] = len(main)
     return g
+
+def identity_trap_corpus(tag, full=False):
+    """ALWAYS-ON corpus: for every binary operator and width, `C op f(v)`, `f(v) op C`, `h(C, f(v))`, `h(f(v), C)` with
+    C an identity / absorbing constant (0, 1, max), v a trap / special value (0 for / and %, the overflow partner for
+    + - *, shift amounts width-1, width, width+1, 255), f an #[inline(never)] identity and h a small INLINABLE helper
+    (the constant meets the operator only after inlining).  Non-reverting cases share one program per (width, operator
+    family); every reverting case is a program of its own.  full=False (quick tier) keeps every `C / f(0)`, `C % f(0)`,
+    one `f(v) / 0`, `f(v) % 0` and one canonical overflow per (operator, width, form); full=True keeps all.
+    Returns [[Gen]] (packages of about 32 programs)."""
+    import random as _r
+    rng = _r.Random(12345)
+    progs = []
+    def new():
+        g = Gen(rng, '%sp%03d' % (tag, len(progs)), viol=0.0)
+        progs.append(g)
+        return g
+    FAM = {'Add': 'arith', 'Sub': 'arith', 'Mul': 'arith', 'Div': 'arith', 'Mod': 'arith', 'BAnd': 'bits', 'BOr': 'bits',
+           'BXor': 'bits', 'Shl': 'bits', 'Shr': 'bits'}
+    CANON = {'Add': [(None, 1)], 'Sub': [(0, 1)], 'Mul': [(None, 2)]}     # None = max
+    for w in (8, 16, 32, 64, 256):
+        M = MAXW[w]
+        ok = {'arith': [], 'bits': [], 'cmp': []}
+        for op in ARITH + CMP:
+            if op in ('Shl', 'Shr'):
+                pairs = [(c, v) for c in (0, 1, M) for v in (0, 1, w - 1, w, w + 1, 255)]
+            else:
+                vals = [0, 1, M] + ([2, M - 1] if op in ('Add', 'Sub', 'Mul') else [])
+                pairs = [(c, v) for c in (0, 1, M) for v in vals]
+            for c, v in pairs:
+                for form in ('direct', 'helper'):
+                    for const_left in (True, False):
+                        x, y = (c, v) if const_left else (v, c)
+                        if op in ('Shl', 'Shr'): y = min(y, 2**64 - 1)      # the shift amount is a u64
+                        ca, cb = ((x, True), (y, False)) if const_left else ((x, False), (y, True))
+                        if reverts_op(op, w, x, y):
+                            if not full:
+                                if op in ('Div', 'Mod'):
+                                    if not const_left and x != 1: continue
+                                else:
+                                    canon = [((M if a is None else a), b) for a, b in CANON[op]]
+                                    if (x, y) not in canon and (y, x) not in canon: continue
+                                    if op == 'Sub' and (x, y) != (0, 1): continue
+                            g = new()
+                            g.p.main = [('log', U64, g.lit(64, len(progs), True)),
+                                        ('log', TBOOL if op in CMP else ('int', w), g.apply_form(form, op, w, ca, cb)),
+                                        ('log', U64, g.lit(64, 7, True))]
+                            g.stats['identity_trap_reverting'] = 1
+                        else:
+                            ok[FAM.get(op, 'cmp')].append((form, op, w, ca, cb))
+        for fam, sts in ok.items():
+            if sts:
+                g = new()
+                g.p.main = [('log', TBOOL if st[1] in CMP else ('int', w), g.apply_form(*st)) for st in sts]
+                g.stats['identity_trap_ok_ops'] = len(sts)
+    size = 32
+    return [progs[i:i + size] for i in range(0, len(progs), size)]
